@@ -151,7 +151,8 @@ def wp_ok(t):
 def str_tok(r):
     q = r.choice(["'", '"'])
     other = '"' if q == "'" else "'"
-    pieces = ['a', 'b', ' ', '+', '(', ')', '\\' + q, '\\\\', other, ',', '1']
+    # (a backslash before the OTHER quote or before a letter is kept as it is: only \\\\ and the literal's own quote are escapes)
+    pieces = ['a', 'b', ' ', '+', '(', ')', '\\' + q, '\\\\', other, ',', '1', '\\' + other, '\\n']
     body = ''.join(r.choice(pieces) for _ in range(r.randint(0, 4)))
     return ('str', (q + body + q, _unescape(body, q)))
 
